@@ -67,6 +67,7 @@ type Op struct {
 	Obj    unsafe.Pointer
 	Ch     reflect.Value
 	LM     LockModel
+	Class  string // lock class, computed on the locking thread
 	W      Waiter
 	Sel    []SelCase
 	SelDef bool
@@ -377,7 +378,12 @@ func WaitOn(w Waiter) bool {
 //
 //go:norace
 func LockPoint(kind OpKind, obj unsafe.Pointer, lm LockModel) bool {
-	_, ok := point(Op{Kind: kind, Obj: obj, LM: lm})
+	if current() == nil {
+		return false
+	}
+	// the class names the site of the first acquisition: it must be computed
+	// here, on the locking thread's stack
+	_, ok := point(Op{Kind: kind, Obj: obj, LM: lm, Class: lm.Class()})
 	return ok
 }
 
@@ -413,7 +419,7 @@ func applyOp(s *Sched, t *Thread, op *Op) {
 	switch op.Kind {
 	case OpLock, OpRLock, OpWLock, OpWAnnounce:
 		if op.LM.Acquire(op.Kind) {
-			cls := op.LM.Class()
+			cls := op.Class
 			for _, h := range t.held {
 				if h.p != op.Obj && h.class != cls {
 					s.LockEdges[LockEdge{h.class, cls}] = struct{}{}
@@ -581,8 +587,8 @@ func (s *Sched) noteWait(t *Thread) {
 	d := t.Label + " " + t.op.Kind.String()
 	if t.op.Kind == OpSend {
 		d += " chan " + t.op.Ch.Type().Elem().String()
-	} else if t.op.LM != nil {
-		d += " " + t.op.LM.Class()
+	} else if t.op.Class != "" {
+		d += " " + t.op.Class
 	}
 	if len(s.Waits) < 256 {
 		s.Waits = append(s.Waits, d)
@@ -746,8 +752,8 @@ func (s *Sched) Live() []*Thread {
 //go:norace
 func (t *Thread) Describe() string {
 	d := fmt.Sprintf("T%d(%s) %v", t.ID, t.Label, t.op.Kind)
-	if t.op.LM != nil {
-		d += " " + t.op.LM.Class()
+	if t.op.Class != "" {
+		d += " " + t.op.Class
 	}
 	if t.op.W != nil {
 		d += " " + t.op.W.WaitName()
